@@ -49,7 +49,8 @@ def floors(ctx):
          "cases_with_nested_universes": 10, "copy_mutation_checks": 100,
          "cases_with_big_attrs": 20, "cases_with_classes_pickled_by_value": 20 if q else 100,
          "cases_with_by_value_class_using_super": 10 if q else 60, "cases_with_slotted_subclass": 20,
-         "cases_with_classes_defined_in_a_script_main": 10}
+         "cases_with_classes_defined_in_a_script_main": 10,
+         "deep_graphs_referred_to_by_a_by_value_closure": 2}
     for p in range(6):
         f[f"proto{p}"] = 10
     f["protodefault"] = 5
@@ -455,7 +456,8 @@ def run(ctx):
     if stepmon.install():
         fixed += [{"source": "byvalue", "variant": v_, "attrs": a_} for v_, a_ in (
             ("plain", "none"), ("super", "none"), ("child+edges", "prims"), ("mixed+edges+uni", "containers"),
-            ("mixed+closure", "none"), ("super+uni+closure", "shared"))]
+            ("mixed+closure", "none"), ("super+uni+closure", "shared"), ("chain:8:Vertex", "none"),
+            ("chain:8:LSuper", "none"))]
     else:
         ctx.count("step_monitor_not_installable")
     fixed += [{"source": "dense", "n": 12, "p": 0.5, "attrs": "containers", "dseed": 3}]
@@ -489,15 +491,21 @@ def run(ctx):
     deep = [(1000, "Vertex"), (3000, "Vertex"), (1500, "VCallable"), (1200, "VSlots")]
     if not quick:
         deep += [(6000, "Vertex"), (10000, "Vertex"), (4000, "VCallable"), (3000, "StrVertex")]
+    if stepmon.STATS["installed"]:
+        # by-value functions whose closures refer into a deep graph, written before the vertex they refer to
+        deep += [(400, "byvalue:Vertex"), (1500, "byvalue:LSuper")] if quick else [(400, "byvalue:Vertex"), (3000, "byvalue:LSuper"), (2000, "byvalue:LPlain")]
     for i, (n, vcls) in enumerate(deep):
         if i % ctx.nshards != ctx.shard % max(1, len(deep)) and ctx.nshards > 1:
             continue
         desc = {"source": "chain", "n": n, "closed": bool(i % 2), "attrs": "none", "vcls": vcls}
+        if vcls.startswith("byvalue:"):
+            desc = {"source": "byvalue", "variant": f"chain:{n}:{vcls.split(':')[1]}", "attrs": "none"}
+            ctx.count("deep_graphs_referred_to_by_a_by_value_closure")
         objs = build_from_desc(desc)
         cfg = {"proto": [4, 2, 5, 3][i % 4], "via": "dumps", "loader": "pickle", "where": "same" if i % 2 else "fresh",
                "cache_dump": False, "cache_load": bool(i % 2), "warm": False, "low_recursion": True}
         ctx.count("deep_graph_cases")
-        run_case(ctx, rng, cfg, desc, objs[-1], objs, batch)
+        run_case(ctx, rng, cfg, desc, objs[0] if desc["source"] == "byvalue" else objs[-1], objs, batch)
     # random graphs
     n_rand = 1200 if quick else 3000
     for i in range(n_rand):
